@@ -56,6 +56,13 @@ def wrappers(r: Rel, others: list[Rel]):
     out.append(Rel("SELECT t.%s AS p, t.%s AS q FROM {f0} WHERE t.%s > 0 ORDER BY 1" % (c1, c0, c0), (r,), (),
                    (("p", U(c1)), ("q", U(c0))), r.tags + ("swap_filter",), r.cost + 1))
     out.append(Rel("SELECT t.%s AS p, {s0} AS m FROM {f0}" % c0, (r,), (base("y"),), (("p", U(c0)), ("m", frozenset({"y.c"}))), r.tags + ("scalar",), r.cost + 1))
+    # value-position subqueries of other shapes: a set operation as the body, IN over a set operation, EXISTS-free arithmetic
+    out.append(Rel("SELECT t.%s + (SELECT MAX(c) FROM y UNION ALL SELECT MAX(a) FROM x LIMIT 1) AS p, t.%s AS q FROM {f0}" % (c0, c1), (r,), (),
+                   (("p", U(c0) | frozenset({"y.c", "x.a"})), ("q", U(c1))), r.tags + ("scalar_union",), r.cost + 1))
+    out.append(Rel("SELECT t.%s IN (SELECT c FROM y UNION SELECT a FROM x) AS p, t.%s AS q FROM {f0}" % (c0, c1), (r,), (),
+                   (("p", U(c0) | frozenset({"y.c", "x.a"})), ("q", U(c1))), r.tags + ("in_union",), r.cost + 1))
+    out.append(Rel("SELECT t.%s IN (SELECT c FROM y) AS p, (SELECT MIN(b) FROM y) + t.%s AS q FROM {f0}" % (c0, c1), (r,), (),
+                   (("p", U(c0) | frozenset({"y.c"})), ("q", U(c1) | frozenset({"y.b"}))), r.tags + ("in_select",), r.cost + 1))
     out.append(Rel("SELECT t1.%s AS p, t2.%s AS q FROM {f0} JOIN {f1} ON t1.%s = t2.%s" % (c0, c1, c0, c0), (r, r), (),
                    (("p", U(c0)), ("q", U(c1))), r.tags + ("self_join",), r.cost + 1))
     for o in others:
